@@ -111,6 +111,9 @@ func vpH_C16_dump() {
 	a := NewCacheHandler(capacity)
 	n := vpHistSteps()
 	hist := vpNewHist(n, true, false)
+	for _, d := range hist.d {
+		vpAssume(d[0] < 0x80) // events carry valid UTF-8 (a dump is JSON text)
+	}
 	for i := 0; i < n; i++ {
 		a.h.c.Add(hist.next(i))
 	}
